@@ -7,7 +7,7 @@ two further attempts, each compared with a fresh configure."""
 import json
 import os
 
-from engine import (Check, tlc, tlc_ok, validate_traces, pmap, BIN,
+from engine import (Check, tlc, tlc_ok, validate, validate_traces, pmap, BIN,
                     MachineryError)
 import regen
 
@@ -65,6 +65,32 @@ SCENARIOS = [
     ('rules+script/ninja', RULES, edit_script, 'ninja'),
     ('pkg+script/ninja', PKG, edit_script, 'ninja'),
 ]
+
+
+ACTION = {('open', '.bfg_environ'): 'EnvOpen',
+          ('close', '.bfg_environ'): 'EnvClose',
+          ('replace', '.bfg_find_deps'): 'DepsRename',
+          ('open', '.bfg_find_cache'): 'CacheOpen',
+          ('close', '.bfg_find_cache'): 'CacheClose',
+          ('open', 'Makefile'): 'MkOpen', ('close', 'Makefile'): 'MkClose',
+          ('open', 'build.ninja'): 'MkOpen',
+          ('close', 'build.ninja'): 'MkClose',
+          ('utime', 'Makefile'): 'Touch', ('utime', 'build.ninja'): 'Touch'}
+
+
+def conformance_traces(name, order):
+    """the recorded mutation order of one regeneration, and each of its
+    crash prefixes, as sequences of Regen.tla action names"""
+    acts = [(i + 1, ACTION[(op, f)]) for i, (op, f, side) in enumerate(order)
+            if side == 'post' and (op, f) in ACTION]
+    out = [{'what': '%s:full' % name, 'acts': [a for _, a in acts]}]
+    last = max([k for k, a in acts if a in ('MkClose', 'Touch')] or [0])
+    for k in range(1, len(order) + 1):
+        if last and k >= last:
+            break                      # the modelled part of the run is over
+        out.append({'what': '%s:crash@%d' % (name, k),
+                    'acts': [a for j, a in acts if j <= k] + ['Crash']})
+    return out
 
 
 def attempt(p, fresh, before):
@@ -194,14 +220,30 @@ def raise_scenario(sc):
 def main(argv):
     ck = Check('C10', argv)
     # 1. design model: which crash windows end in a silent stale success?
-    cfg = ('CONSTANTS Names = {"a"} MaxClock = 16 AllowCrash = TRUE '
-           'MaxEdits = 1\nSPECIFICATION Spec\nCONSTRAINT Bound\n'
-           'CONSTRAINT BaseExists\nINVARIANT Report\nCHECK_DEADLOCK FALSE\n')
-    r = tlc_ok('Regen', cfg)
+    cfg = ('CONSTANTS Names = {%s} MaxClock = %d AllowCrash = TRUE '
+           'MaxEdits = %d Fixed = %s\nSPECIFICATION Spec\nCONSTRAINT Bound\n'
+           'CONSTRAINT BaseExists\nINVARIANT Report\nINVARIANT Converges\n'
+           'CHECK_DEADLOCK FALSE\n')
+    big = ('"a"', 20, 1) if ck.quick else ('"a", "b"', 36, 2)
+    r = tlc_ok('Regen', cfg % (big + ('TRUE',)))
     windows = sorted({p[1] for p in r.prints if isinstance(p, list) and
                       p and p[0] == 'VIOL'})
-    ck.add_model(r, 'Regen design model, one edit, one crash')
+    ck.add_model(r, 'Regen design model of the repaired algorithm, %d '
+                 'edit(s), one crash at any point' % big[2])
     ck.note('design_model_stale_windows', windows)
+    if windows or r.invariant_violated:
+        ck.report('C10:design:stale-window:' + '+'.join(windows),
+                  'the design model of the current algorithm has a crash '
+                  'window that ends in a silent stale success: %s\n%s' %
+                  (windows, r.tail(30)))
+    # vacuity guard: the pinned tree's algorithm must show its two windows
+    r0 = tlc_ok('Regen', cfg % ('"a"', 18, 1, 'FALSE'))
+    w0 = sorted({p[1] for p in r0.prints if isinstance(p, list) and
+                 p and p[0] == 'VIOL'})
+    ck.note('design_model_stale_windows_of_pinned_algorithm', w0)
+    if w0 != ['deps_close', 'mk_open']:
+        ck.machinery('vacuity guard: the model of the pinned algorithm '
+                     'shows windows %r' % w0)
 
     # 2. fault enumeration on the real code
     scs = SCENARIOS[:4] if ck.quick else SCENARIOS
@@ -211,6 +253,29 @@ def main(argv):
     runs = [t for tr, _ in results for t in tr] + raises
     ck.note('mutation_sequences', {sc[0]: ['%s(%s):%s' % m for m in order]
                                    for sc, (_, order) in zip(scs, results)})
+    # design-level conformance of the recorded mutation orders
+    conf = []
+    for sc, (_, order) in zip(scs, results):
+        conf += conformance_traces(sc[0], order)
+    for i, c in enumerate(conf):
+        c['id'] = i + 1
+    ccfg = ('CONSTANTS Names = {"a"} MaxClock = 40 AllowCrash = TRUE '
+            'MaxEdits = 2 Fixed = TRUE\nSPECIFICATION ConfSpec\n'
+            'CONSTRAINT Bound\nINVARIANT Explained\nCHECK_DEADLOCK FALSE\n')
+    acc, _, rc = validate('Regen_Conf', ccfg, [
+        {'id': c['id'], 'acts': c['acts']} for c in conf], workers=8)
+    unexplained = [c['what'] for c in conf if c['id'] not in acc]
+    ck.drift = len(unexplained)
+    ck.states += rc.distinct
+    ck.transitions += rc.generated
+    ck.note('conformance', {'mutation_sequences_checked': len(conf),
+                            'explained_by_Regen.tla': len(conf) -
+                            len(unexplained),
+                            'unexplained (SPEC-DRIFT)': unexplained[:20]})
+    if unexplained:
+        print('SPEC-DRIFT property=C10 %d recorded mutation sequences are '
+              'not behaviours of Regen.tla (first: %s)' % (
+                  len(unexplained), unexplained[0]))
     traces = [{'id': i + 1, 'events': [
         {k: v for k, v in e.items() if k not in ('tail', 'state')}
         for e in tr['events']]} for i, tr in enumerate(runs)]
